@@ -1,6 +1,6 @@
 import Sylvia.Thm.C06
 import Sylvia.Thm.Obl.Override
-import Sylvia.Thm.Obl.Tables
+import Sylvia.Thm.Obl.T.epDefaults_documented
 /-! C06 with its table hypotheses discharged against the regenerated tables. -/
 namespace C06
 open Sylvia Gen Extracted
@@ -12,7 +12,7 @@ theorem ep_iff_closed (c : Contract) (k : Kind) :
 /-- **C06, forwarding.** Every emitted entry point is named after its kind, takes the context
 parameters of that kind, decodes the contract-level message *of that kind* and passes exactly those
 context values on to dispatch (the dispatch call itself is one of three recognised templates, checked by
-`Obl.extraction_complete`). -/
+`Obl.extraction_complete_C06`). -/
 theorem ep_forwards (k : Kind) :
     (epFn k).params = (epFn k).values ∧
     (epFn k).values = (match k with
